@@ -20,3 +20,5 @@ run prefix_5accf98 git apply -R $V/docs/C16.mutants/prefix_5accf98.forward.diff
 run prefix_4749459 bash -c "git show 4749459 -- spec_classes/spec_class.py | git apply -R"
 # the library before 22fd1a4: falsy __new__ replaced by the lazy hook
 run prefix_22fd1a4 bash -c "git show 22fd1a4 -- spec_classes/spec_class.py | git apply -R"
+# the library before 29fc5a5: the collision fallback renamed the Attr shared with the parent
+run prefix_29fc5a5 git apply -R $V/docs/C16.mutants/prefix_29fc5a5.forward.diff
